@@ -24,6 +24,7 @@ inductive Val where
   | undef | null
   | bool (b : Bool)
   | num (n : Int)
+  | nan
   | str (s : String)
   | obj (id : Nat)
   | err (cls : String)
@@ -67,11 +68,12 @@ structure Host where
   typeofObj : Nat → String
   primGet : Val → Val → Val
 
-def toBool : Val → Bool
+def truthy : Val → Bool
   | .undef => false
   | .null => false
   | .bool b => b
   | .num n => n != 0
+  | .nan => false
   | .str s => s != ""
   | .obj _ => true
   | .err _ => true
@@ -84,6 +86,9 @@ def isNullish : Val → Bool
 def sameKind : Val → Val → Bool
   | .bool _, .bool _ => true
   | .num _, .num _ => true
+  | .num _, .nan => true
+  | .nan, .num _ => true
+  | .nan, .nan => true
   | .str _, .str _ => true
   | .obj _, .obj _ => true
   | .err _, .err _ => true
@@ -94,10 +99,17 @@ def liftE {α : Type} (r : Except Val α) : M α :=
   | .ok a => retM a
   | .error v => throwV v
 
+/-- `===` (NaN is not equal to itself) -/
+def strictEq (a b : Val) : Bool :=
+  match a, b with
+  | .nan, _ => false
+  | _, .nan => false
+  | a, b => decide (a = b)
+
 /-- `==` -/
 def looseEq (H : Host) (a b : Val) : M Bool :=
   if isNullish a || isNullish b then retM (isNullish a && isNullish b)
-  else if sameKind a b then retM (decide (a = b))
+  else if sameKind a b then retM (strictEq a b)
   else retM (H.rel .eq a b)
 
 def typeofVal (H : Host) : Val → Val
@@ -105,16 +117,21 @@ def typeofVal (H : Host) : Val → Val
   | .null => .str "object"
   | .bool _ => .str "boolean"
   | .num _ => .str "number"
+  | .nan => .str "number"
   | .str _ => .str "string"
   | .obj i => .str (H.typeofObj i)
   | .err _ => .str "object"
 
-/-- reading a global variable -/
-def getVar (n : String) : M Val := fun s =>
-  if n == "undefined" then .ok .undef s else .ok (s.env n) s
+/-- the value of a global variable: `undefined` and `NaN` are the immutable globals -/
+def lookup (s : St) (n : String) : Val :=
+  if n == "undefined" then .undef else if n == "NaN" then .nan else s.env n
 
+/-- reading a global variable -/
+def getVar (n : String) : M Val := fun s => .ok (lookup s n) s
+
+/-- writing a global variable (assignment to the immutable globals throws, as in strict mode) -/
 def putVar (n : String) (v : Val) : M Unit := fun s =>
-  if n == "undefined" then .ok () s
+  if n == "undefined" || n == "NaN" then .thr (.err "TypeError") s
   else .ok () { s with env := fun m => if m == n then v else s.env m }
 
 /-- an observable event whose result the host decides from the whole trace -/
@@ -136,7 +153,7 @@ def putProp (H : Host) (o k v : Val) : M Unit :=
   | .undef => throwV (.err "TypeError")
   | .null => throwV (.err "TypeError")
   | .obj _ => hostEv (.set o k v) H.set
-  | _ => retM ()
+  | _ => throwV (.err "TypeError")   -- strict mode: a property cannot be created on a primitive
 
 inductive Ref where
   | var (n : String)
@@ -165,8 +182,8 @@ def strictBin (H : Host) (op : BOp) (a b : Val) : M Val :=
   match op with
   | .eq => bindM (looseEq H a b) (fun r => retM (.bool r))
   | .ne => bindM (looseEq H a b) (fun r => retM (.bool (!r)))
-  | .seq => retM (.bool (decide (a = b)))
-  | .sne => retM (.bool (!decide (a = b)))
+  | .seq => retM (.bool (strictEq a b))
+  | .sne => retM (.bool (!strictEq a b))
   | .lt | .le | .gt | .ge | .inOp | .instOf => retM (.bool (H.rel op a b))
   | _ => retM (H.arith op a b)
 
@@ -182,7 +199,7 @@ def eval (H : Host) : E → M Val
   | .group x => eval H x
   | .unary op x =>
     match op with
-    | .not => bindM (eval H x) (fun v => retM (.bool (!toBool v)))
+    | .not => bindM (eval H x) (fun v => retM (.bool (!truthy v)))
     | .void => bindM (eval H x) (fun _ => retM .undef)
     | .typeof => bindM (eval H x) (fun v => retM (typeofVal H v))
     | .delete => bindM (lref H x) (fun r =>
@@ -199,14 +216,14 @@ def eval (H : Host) : E → M Val
     | _ => bindM (eval H x) (fun v => retM (H.unop op v))
   | .bin op x y =>
     match op with
-    | .land => bindM (eval H x) (fun v => if toBool v then eval H y else retM v)
-    | .lor => bindM (eval H x) (fun v => if toBool v then retM v else eval H y)
+    | .land => bindM (eval H x) (fun v => if truthy v then eval H y else retM v)
+    | .lor => bindM (eval H x) (fun v => if truthy v then retM v else eval H y)
     | .nullish => bindM (eval H x) (fun v => if isNullish v then eval H y else retM v)
     | .assign => bindM (lref H x) (fun r => bindM (eval H y) (fun v => bindM (putRef H r v) (fun _ => retM v)))
     | .landEq => bindM (lref H x) (fun r => bindM (getRef H r) (fun old =>
-        if toBool old then bindM (eval H y) (fun v => bindM (putRef H r v) (fun _ => retM v)) else retM old))
+        if truthy old then bindM (eval H y) (fun v => bindM (putRef H r v) (fun _ => retM v)) else retM old))
     | .lorEq => bindM (lref H x) (fun r => bindM (getRef H r) (fun old =>
-        if toBool old then retM old else bindM (eval H y) (fun v => bindM (putRef H r v) (fun _ => retM v))))
+        if truthy old then retM old else bindM (eval H y) (fun v => bindM (putRef H r v) (fun _ => retM v))))
     | .nullishEq => bindM (lref H x) (fun r => bindM (getRef H r) (fun old =>
         if isNullish old then bindM (eval H y) (fun v => bindM (putRef H r v) (fun _ => retM v)) else retM old))
     | _ =>
@@ -214,7 +231,7 @@ def eval (H : Host) : E → M Val
       | some pop => bindM (lref H x) (fun r => bindM (getRef H r) (fun old => bindM (eval H y) (fun v =>
           bindM (putRef H r (H.arith pop old v)) (fun _ => retM (H.arith pop old v)))))
       | none => bindM (eval H x) (fun a => bindM (eval H y) (fun b => strictBin H op a b))
-  | .cond c x y => bindM (eval H c) (fun v => if toBool v then eval H x else eval H y)
+  | .cond c x y => bindM (eval H c) (fun v => if truthy v then eval H x else eval H y)
   | .comma l => bindM (evalL H l) (fun vs => retM (vs.getLast?.getD .undef))
   | .call f args => bindM (eval H f) (fun fv => bindM (evalL H args) (fun vs => hostEv (.call fv vs) H.call))
   | .dot x name => bindM (eval H x) (fun o => getProp H o (.str name))
@@ -247,7 +264,7 @@ mutual
 /-- execution of a statement -/
 def exec (H : Host) : S → M Compl
   | .expr e => bindM (eval H e) (fun _ => retM .normal)
-  | .ifS c t e => bindM (eval H c) (fun v => if toBool v then exec H t else exec H e)
+  | .ifS c t e => bindM (eval H c) (fun v => if truthy v then exec H t else exec H e)
   | .ret none => retM (.ret .undef)
   | .ret (some e) => bindM (eval H e) (fun v => retM (.ret v))
   | .throw e => bindM (eval H e) (fun v => throwV v)
